@@ -7,6 +7,7 @@ package main
 
 import (
 	"bufio"
+	"bytes"
 	"context"
 	"encoding/json"
 	"errors"
@@ -16,6 +17,7 @@ import (
 	"os"
 	"reflect"
 	"sort"
+	"strings"
 	"time"
 
 	"github.com/theory/sqljson/path"
@@ -152,8 +154,13 @@ func maskIDs(v any) any {
 			_, hasKey := out["key"]
 			_, hasVal := out["value"]
 			if id, ok := out["id"].(int64); ok && hasKey && hasVal {
-				_ = id
-				out["id"] = int64(0)
+				// id = baseObjectID * 10^10 + address offset: keep the base-object part, which the
+				// model predicts; the offset depends on heap addresses (< 10^10 in this process)
+				out["id"] = id / 10000000000
+				// the triple generated for the "id" member of another triple carries an id as its value
+				if v, ok := out["value"].(int64); ok && out["key"] == "id" {
+					out["value"] = v / 10000000000
+				}
 			}
 		}
 		return out
@@ -187,6 +194,17 @@ func zoneWire(id string) any {
 		return J{"initial": 0, "trans": []any{}}
 	}
 	return zoneTable(loc)
+}
+
+var zoneWireMemo = map[string]any{}
+
+func zoneWireCached(id string) any {
+	if w, ok := zoneWireMemo[id]; ok {
+		return w
+	}
+	w := zoneWire(id)
+	zoneWireMemo[id] = w
+	return w
 }
 
 // zoneTable probes loc for its transitions between 1900 and 2100.
@@ -228,13 +246,33 @@ func runExec(p *path.Path, doc any, vars map[string]any, c *execCase) (res J) {
 	}()
 	var opts []exec.Option
 	if vars != nil {
+		if c.ID%2 == 1 {
+			// option noise: an earlier WithVars is overridden by the later one and must stay untouched
+			decoy := map[string]any{"zz_decoy": int64(1)}
+			for k := range vars {
+				decoy[k] = "decoy"
+			}
+			decoyCopy := deepCopy(any(decoy))
+			opts = append(opts, exec.WithVars(exec.Vars(decoy)))
+			defer func() {
+				if !reflect.DeepEqual(any(decoy), decoyCopy) {
+					res = J{"out": "input-mutated", "what": "overridden WithVars map"}
+				}
+			}()
+		}
 		opts = append(opts, exec.WithVars(exec.Vars(vars)))
 	}
 	if c.Silent {
 		opts = append(opts, exec.WithSilent())
+		if c.ID%3 == 1 {
+			opts = append(opts, exec.WithSilent())
+		}
 	}
 	if c.UseTZ {
 		opts = append(opts, exec.WithTZ())
+		if c.ID%3 == 2 {
+			opts = append(opts, exec.WithTZ())
+		}
 	}
 	var kind error
 	k := -1
@@ -298,6 +336,118 @@ func runExec(p *path.Path, doc any, vars map[string]any, c *execCase) (res J) {
 		return J{"out": "bool", "v": b}
 	}
 	return J{"out": "skip", "why": "bad entry"}
+}
+
+const spareMark = "\x00spare"
+
+// withSpare copies v, giving every array two unused slots of capacity that hold spareMark: a callee
+// that appends to (a slice aliasing) a document array writes there, which spareOK detects.
+func withSpare(v any) any {
+	switch v := v.(type) {
+	case []any:
+		out := make([]any, len(v), len(v)+2)
+		for i, x := range v {
+			out[i] = withSpare(x)
+		}
+		full := out[:cap(out)]
+		for i := len(out); i < len(full); i++ {
+			full[i] = spareMark
+		}
+		return out
+	case map[string]any:
+		out := make(map[string]any, len(v))
+		for k, x := range v {
+			out[k] = withSpare(x)
+		}
+		return out
+	}
+	return v
+}
+
+func spareOK(v any) bool {
+	switch v := v.(type) {
+	case []any:
+		full := v[:cap(v)]
+		for i := len(v); i < len(full); i++ {
+			if full[i] != any(spareMark) {
+				return false
+			}
+		}
+		for _, x := range v {
+			if !spareOK(x) {
+				return false
+			}
+		}
+	case map[string]any:
+		for _, x := range v {
+			if !spareOK(x) {
+				return false
+			}
+		}
+	}
+	return true
+}
+
+// runExecPure is runExec plus the purity check of C05: the document and the variables must encode
+// after the call to what they encoded to before it.
+func runExecPure(p *path.Path, doc any, vars map[string]any, c *execCase, docB, varsB []byte) J {
+	res := runExec(p, doc, vars, c)
+	if c.Cancel == nil && (c.Entry == "query" || c.Entry == "first") && strings.Contains(c.Path, "keyvalue") {
+		// C16: ids are stable over repeated executions (heap addresses of the document do not move)
+		a, b := rawKVIDs(p, doc, vars, c), rawKVIDs(p, doc, vars, c)
+		if !reflect.DeepEqual(a, b) {
+			return J{"out": "unstable-keyvalue-ids"}
+		}
+	}
+	if !bytes.Equal(docB, marshal(encItem(doc))) {
+		return J{"out": "input-mutated", "what": "document"}
+	}
+	if !bytes.Equal(varsB, marshal(encVars(vars))) {
+		return J{"out": "input-mutated", "what": "variables"}
+	}
+	if !spareOK(doc) || !spareOK(any(vars)) {
+		return J{"out": "input-mutated", "what": "spare capacity of an input array was written"}
+	}
+	return res
+}
+
+// rawKVIDs runs the query and returns the unmasked ids of the keyvalue triples in its result.
+func rawKVIDs(p *path.Path, doc any, vars map[string]any, c *execCase) (ids []int64) {
+	defer func() { _ = recover() }()
+	var opts []exec.Option
+	if vars != nil {
+		opts = append(opts, exec.WithVars(exec.Vars(vars)))
+	}
+	if c.Silent {
+		opts = append(opts, exec.WithSilent())
+	}
+	if c.UseTZ {
+		opts = append(opts, exec.WithTZ())
+	}
+	items, _ := p.Query(types.ContextWithTZ(context.Background(), zoneFor(c.ZoneID)), doc, opts...)
+	var walk func(v any)
+	walk = func(v any) {
+		switch v := v.(type) {
+		case []any:
+			for _, x := range v {
+				walk(x)
+			}
+		case map[string]any:
+			keys := make([]string, 0, len(v))
+			for k := range v {
+				keys = append(keys, k)
+			}
+			sort.Strings(keys)
+			for _, k := range keys {
+				if id, ok := v[k].(int64); ok && k == "id" && len(v) == 3 {
+					ids = append(ids, id)
+				}
+				walk(v[k])
+			}
+		}
+	}
+	walk(any(items))
+	return ids
 }
 
 // countPolls runs the uncancelled query and returns how often the context was polled.
@@ -451,7 +601,7 @@ func execStream(args []string) int {
 	outCount := map[string]int{}
 	parseFail := 0
 	id := 0
-	today := time.Now().UTC().Unix() / 86400
+	forceZone, forceTZ := "", -1
 	for grp := 0; grp < *n; grp++ {
 		var text string
 		var doc any
@@ -459,6 +609,19 @@ func execStream(args []string) int {
 		if grid != nil {
 			text, doc, vars = grid[grp].text, grid[grp].doc, grid[grp].vars
 			g.strs = nil
+			forceZone, forceTZ = "", -1
+			if strings.HasPrefix(text, "#") {
+				if end := strings.Index(text[1:], "#"); end >= 0 {
+					for _, kv := range strings.Split(text[1:1+end], ";") {
+						if v, ok := strings.CutPrefix(kv, "zone="); ok {
+							forceZone = v
+						} else if v, ok := strings.CutPrefix(kv, "usetz="); ok {
+							forceTZ = int(v[0] - '0')
+						}
+					}
+					text = text[end+2:]
+				}
+			}
 		} else {
 			text = g.path()
 		}
@@ -470,20 +633,32 @@ func execStream(args []string) int {
 		if grid == nil {
 			doc, vars = bestDocument(g, pp)
 		}
+		doc = withSpare(doc)
+		if vars != nil {
+			vars = withSpare(any(vars)).(map[string]any)
+		}
 		astW := encAST(pp.AST)
 		docW := encItem(doc)
 		varsW := encVars(vars)
+		docB, varsB := marshal(docW), marshal(varsW)
 		rx := regexOracle(pp, doc, vars, g.strs)
 		zid := zoneIDs[g.r.Intn(len(zoneIDs))]
-		zw := zoneWire(zid)
 		usetz := g.pct(40)
+		if forceZone != "" {
+			zid = forceZone
+		}
+		if forceTZ >= 0 {
+			usetz = forceTZ == 1
+		}
+		zw := zoneWireCached(zid)
+		today := todayIn(time.Now(), zoneFor(zid)) // the civil date "now" in the context zone
 		emit := func(entry string, silent bool, cancelAt *int, kind string) {
 			c := &execCase{ID: id, Op: "exec", Path: text, AST: astW, Doc: docW, Vars: varsW, Entry: entry,
 				Silent: silent, UseTZ: usetz, Zone: zw, ZoneID: zid, Today: today, Cancel: cancelAt, Kind: kind, Regex: rx, Group: grp}
 			id++
 			cw.Write(marshal(c))
 			cw.WriteByte('\n')
-			res := runExec(pp, doc, vars, c)
+			res := runExecPure(pp, doc, vars, c, docB, varsB)
 			res["id"] = c.ID
 			outCount[fmt.Sprint(res["out"], "/", res["class"])]++
 			ow.Write(marshal(res))
@@ -596,7 +771,7 @@ func execRun(args []string) int {
 						vars[kv[0].(string)] = v
 					}
 				}
-				res = runExec(pp, doc, vars, &c)
+				res = runExecPure(pp, doc, vars, &c, marshal(encItem(doc)), marshal(encVars(vars)))
 			}
 		}
 		res["id"] = c.ID
